@@ -37,3 +37,53 @@ Theorem crash_in_push_window_duplicates :
   cseqs_of p8_actor (s_log p8_after_retry) = [1; 1] /\                     (* and stored again *)
   s_head p8_after_retry = 2.
 Proof. repeat split; vm_compute; reflexivity. Qed.
+
+(* ------------------------------------------------------------------ *)
+(* finding P11: the handler reads the changes to pull first and the minimum version vector later;
+   other requests can run in between.  [stale_pull s s' q] is the response whose pulled changes
+   were read in state s and whose vector was computed in the later state s'. *)
+Definition stale_pull (s s' : srv) (q : req) : resp :=
+  let '(_, r1, _) := push_pull s q in
+  let '(_, r3, _) := push_pull s' q in
+  mkResp (p_cp_s r1) (p_cp_c r1) (p_changes r1) (p_snapshot r1) (p_vv r3) (p_removed r1).
+
+(* what garbage collection relies on: a change whose author had not seen what the response's vector
+   says everybody has seen must have been delivered *)
+Definition lam_of (v : vv) (a : actor) : Z := match aget v a with Some l => l | None => 0 end.
+Definition undelivered_older (s : srv) (me : actor) (r : resp) : list stored :=
+  match p_vv r with
+  | None => []
+  | Some m =>
+      filter (fun st => negb (N.eqb (h_actor (st_ch st)) me) && (p_cp_s r <? st_sseq st) &&
+                        existsb (fun al => lam_of (h_vv (st_ch st)) (fst al) <? snd al) m)
+             (s_log s)
+  end.
+
+Definition p11_R : actor := 1%N.
+Definition p11_M : actor := 2%N.
+Definition p11_s0 : srv :=
+  let s := activate (activate (empty_srv false 100) p11_R) p11_M in
+  match mark_attached s p11_R with
+  | Some s1 => match mark_attached s1 p11_M with Some s2 => s2 | None => s1 end
+  | None => s
+  end.
+(* R deletes something: change d, lamport 2 *)
+Definition p11_d : chdr := mkCh p11_R 1 2 [(p11_R, 2)] 1 0%N.
+Definition p11_s1 : srv := fst (fst (push_pull p11_s0 (mkReq p11_R 0 0 [p11_d] [(p11_R, 2)] false MPushPull DAttached false))).
+(* R syncs again, nothing to push *)
+Definition p11_qR : req := mkReq p11_R 1 1 [] [(p11_R, 2)] false MPushPull DAttached false.
+(* meanwhile M pushes X, made before it saw d (an insert anchored on what d deleted), and pulls d ... *)
+Definition p11_X : chdr := mkCh p11_M 1 1 [(p11_M, 1)] 1 0%N.
+Definition p11_s2 : srv := fst (fst (push_pull p11_s1 (mkReq p11_M 0 0 [p11_X] [(p11_M, 1)] false MPushPull DAttached false))).
+(* ... and syncs once more, reporting a vector that covers d *)
+Definition p11_s3 : srv := fst (fst (push_pull p11_s2 (mkReq p11_M 2 1 [] [(p11_R, 2); (p11_M, 3)] false MPushPull DAttached false))).
+
+Theorem stale_minimum_outruns_the_pull :
+  (* handled in one piece, in either state, R's sync leaves nothing behind *)
+  undelivered_older p11_s1 p11_R (snd (fst (push_pull p11_s1 p11_qR))) = [] /\
+  undelivered_older p11_s3 p11_R (snd (fst (push_pull p11_s3 p11_qR))) = [] /\
+  (* pull range from before M's two syncs, minimum from after: X is missing while the vector says
+     everybody has seen d *)
+  map (fun st => h_actor (st_ch st)) (undelivered_older p11_s3 p11_R (stale_pull p11_s1 p11_s3 p11_qR)) = [p11_M] /\
+  p_vv (stale_pull p11_s1 p11_s3 p11_qR) = Some [(p11_R, 2); (p11_M, 0)].
+Proof. repeat split; vm_compute; reflexivity. Qed.
